@@ -1604,7 +1604,7 @@ class CxxParser:
         return FundamentalSpecifier(" ".join(fnames))
 
     def _parse_pqname_name_operator(self) -> LexTokenList:
-        # last tok was 'operator' -- collect until ( is reached
+        # last tok was 'operator' -- collect until ( or ; is reached
         # - no validation done here, we assume the code is valid
 
         tok = self.lex.token()
@@ -1616,7 +1616,8 @@ class CxxParser:
             parts.append(tok)
             return parts
 
-        self._consume_until(parts, "(")
+        # the name ends at the parameter list or, in a using-declaration, at the ';'
+        self._consume_until(parts, "(", ";")
         return parts
 
     _pqname_start_tokens = (
